@@ -46,23 +46,23 @@ claim("C11", "exploration", MON + "hooked length accessors sampled after every p
       "entries == timers after every poll on both ends; client never certainly above max_in_flight_requests on the wire; server in_flight_requests() never above possible, equal to exact at idle points without uncertainty; everything back to zero with the clock stopped once all calls/requests ended by any route; runs of 2500 requests reuse slots.",
       "known finding F6 affects the idle-equality clause and is matched by signature", "DESIGN.md 3, 4/C11")
 claim("C12", "exploration", MON + "certain/possible in-flight bounds evaluated at the instant each request is read",
-      "A request handed over while certainly >= L are in flight, or refused while possibly < L are, is a violation; refused requests must get exactly one throttle response and never run; includes cancel/expiry/response followed by a request inside one channel poll.",
-      "", "DESIGN.md 4/C12")
+      "A request handed over while certainly >= L are in flight, or refused while possibly < L are (not counting requests the application abandoned before that poll began), is a violation; refused requests must get exactly one throttle response and never run; includes cancel/expiry/response/abandonment followed by a request inside one channel poll.",
+      "in-flight counts are bounded from observable events (certainly / possibly in flight); found and repaired F4 and F8", "DESIGN.md 4/C12, 5.1")
 claim("C13", "exploration", MON + "exact alive-set oracle over bounded-exhaustive and random arrival/close/poll sequences",
-      "The harness owns every yielded channel, so the number alive per key is exact at every admit/shed decision; all sequences up to length 7 (quick) / 9 (thorough) over 2 keys and n in {1,2} are enumerated, plus random longer ones.",
-      "", "DESIGN.md 4/C13")
+      "The harness owns every yielded channel, so the number alive per key is exact at every admit/shed decision; all sequences up to length 7 (quick) / 10 (thorough) over 2 keys and n in {1,2} are enumerated, plus random longer ones over 3 keys and n up to 3.",
+      "sequences beyond the enumerated length are only sampled; found and repaired F1", "DESIGN.md 4/C13, 5.1")
 claim("C14", "exploration", MON + "online sink-contract monitor inside the instrumented transport (readiness credit, write-after-close/failure, idle-with-unflushed, spin detector)",
-      "Every Sink/Stream call tarpc makes is checked online on both coupled and independent readiness models, capacities 1..8, with faults for the after-failure clause; a transport that is refused a write without room makes the consequences visible too.",
-      "", "DESIGN.md 2.2, 4/C14")
+      "Every Sink/Stream call tarpc makes is checked online on both coupled and independent readiness models, capacities 1..8, with injected faults for the after-failure clause; a transport that refuses a write for which it has no room makes the consequences visible too; the instrumented transport itself is self-tested against a reference sink user.",
+      "only the two readiness models of the mock are exercised (plus the shipped transports in S-e2e); found and repaired F5", "DESIGN.md 2.2, 4/C14, 5.1")
 claim("C18", "exploration", MON + "unique trace ids per call compared on the wire, in handlers and across hops",
       "Every call carries a unique trace id; wire Request, handler context, nested call and Cancel are compared per call and hop on S-client and S-e2e; span ids must be fresh per hop.",
-      "only the no-subscriber mode is exercised so far", "DESIGN.md 4/C18")
+      "compared without a subscriber and, for the cross-hop clauses, under an OpenTelemetry subscriber", "DESIGN.md 4/C18")
 claim("C19", "exploration", MON + "reference interpreter vs. recorded hook/handler event sequence over bounded-exhaustive hook trees",
       "All hook trees up to nesting depth 4 (quick) / 5 (thorough) plus random deeper ones are executed through the real combinators and compared event by event with an interpreter written from the property's sentences.",
-      "", "DESIGN.md 4/C19")
+      "hooks are immediately-ready futures; the context seen by a plain after-hook is not compared", "DESIGN.md 4/C19")
 claim("C20", "exploration", MON + "recording backends under sequential prefixes, real-thread concurrency, adversarial hashers and every retry policy vector up to length 6",
-      "Round-robin balance after every prefix and after concurrent runs; consistent hash is a function into valid indices for 6 hashers; retry attempt numbering, request identity (Arc pointer), stop point and returned result.",
-      "", "DESIGN.md 4/C20")
+      "Round-robin balance after every prefix and after real-thread concurrent runs; consistent hash is a function into valid indices for 6 hashers; retry attempt numbering, request identity (Arc pointer), stop point and returned result for every policy vector up to length 6 and every kind of RpcError; Miri tier in thorough.",
+      "counter wrap-around (2^64 calls) is out of reach of execution", "DESIGN.md 4/C20")
 
 claim("C15", "exploration", MON + "differential in/out comparison of generated message sequences over every shipped transport with adversarial fragmentation; end-of-stream check; error-kind table check",
       "Whatever is written at one end must be read at the other, complete, unmodified and in order, for all variants, boundary ids, empty/unicode/64 KiB/1 MiB bodies, every io::ErrorKind the platform can produce, with reads and writes split down to one byte and Pending injected anywhere, ending by drop or by close; optional fields removed from hand-edited JSON; the codec is used exactly as shipped (Bincode::default()).",
